@@ -1,7 +1,7 @@
 SPECIFICATION Spec
 CONSTANTS Kind = "forms"
- NMax = 25
- DMax = 6
+ NMax = 32
+ DMax = 8
  LMax = 0
  ScaleSet = {0}
 INVARIANT Emit
